@@ -283,11 +283,11 @@ impl NormalFormQuery {
                 &mut qp,
             )?;
             // PERF: if summation column is strictly positive, can use sum as well
-            if aggregator == Aggregator::Count && !plan.is_nullable() {
+            if aggregator == Aggregator::Count && !plan.is_nullable() && !plan.is_null() {
                 selector = Some((aggregate, t.encoding_type()));
                 selector_index = Some(i)
             }
-            aggregation_results.push((aggregator, aggregate, t, plan.is_nullable()))
+            aggregation_results.push((aggregator, aggregate, t, plan.is_nullable() || plan.is_null()))
         }
 
         // Determine selector
